@@ -636,6 +636,7 @@ type tlvsCase struct {
 }
 
 func checkC17(c *Ctx) {
+	platformProbe(c, "C17", "tlvprobe") // every tag / integers at the ends of every width, on 32-bit and non-amd64 builds too
 	c.SetRule("streams: rt (type-directed random values of the library's RTP types, synthetic types covering every kind / nesting / both list forms, " +
 		"and random reflect.StructOf types: Marshal, reference encoder, Unmarshal of the result, model; non-trivial = round trip succeeded on a " +
 		"non-zero value), dec (arbitrary / truncated / bit-flipped / short-value byte strings into every type under recover; non-trivial = decoded to a " +
